@@ -33,6 +33,17 @@ values assume exactly that at every raise site).  Executed as the code they stan
 single-yield @contextmanager generator (`s_With`), `for` / list comprehension over an uncontracted generator helper (`loop_over_helper`,
 push form), invariant-less search loops over a symbolic sequence (`search_loop`, exact), `f(**dict_of_known_keys)`, zero-argument
 `super().__init__` in exception classes.  Each falls back to out-of-subset / the tagged havoc cut on any other shape.
+
+Round 7 (deepening): `_build_children_url` VERIFIED (Graph path of exactly the folder asked for + optional query, a function of
+its three arguments, no effect) -- it was an assumed abstraction; callers keep the opaque name CU / CUROOT of it.  New contracts
+on functions that used to be executed in place inside every caller: `_ensure_token` (cached token reused without a request,
+absent one fetched once and cached, failure leaves the cache as it was), `_get_headers` (`Authorization: Bearer <cached token>`),
+and `_get_json` now proves that the request it hands to `_send` carries that header.  Part F: `SharePointRestClient.__init__`
+(caches start empty, transport / credentials are the ones given) -- the deductive counterpart of the syntactic
+`caches-start-empty` typestate.  Executor: a pure boolean case split inside a comprehension element is one If-term
+(`merge_bool_forks`; exhaustiveness of the branch conditions is proved), `item["key"]` on parsed JSON (TypeError / KeyError /
+member): the causes of seeds C18_11 and C18_2 are now refuted by `FileFilter.matches/returns` and
+`_get_folders_from_url/inv-preserve#items` instead of `out-of-subset`.
 """
 import z3
 
@@ -391,6 +402,17 @@ def m_strip(ex, st, args, kwargs, node):
     return [(st, VStr(z3.String(fresh_name("strip"))))]
 
 
+RSTRIPS = z3.Function("rstrip_slashes", S, S)          # s.rstrip("/") (uninterpreted name of the library function; round 7)
+
+
+def m_rstrip(ex, st, args, kwargs, node):
+    s0 = args[0]
+    if len(args) == 2 and isinstance(args[1], VStr) and args[1].const() == "/":
+        c = s0.const()
+        return [(st, VStr(c.rstrip("/")) if c is not None else VStr(RSTRIPS(s0.t)))]
+    return [(st, VStr(z3.String(fresh_name("rstrip"))))]
+
+
 DAY_US = 86400 * 1000000
 
 
@@ -436,6 +458,7 @@ def m_dt_astimezone(ex, st, obj, args, kwargs, node):
 def install_string_models(reg):
     reg.ext_models["os.path.splitext"] = m_splitext
     reg.ext_models["str.strip"] = m_strip
+    reg.ext_models["str.rstrip"] = m_rstrip
     reg.ext_models["str.lower"] = m_lower
     reg.ext_models["str.split"] = m_split
     reg.ext_models["str.ljust"] = m_ljust
@@ -732,12 +755,30 @@ class C18Executor(Executor):
             return [(s2, VExt("tzinfo") if aware else NONE) for (s2, aware) in _split_aware(self, st, base.t)]
         return super().get_attr(st, base, attr, node)
 
+    def get_index(self, st, base, idx, node):
+        """round 7: `item["key"]` on a parsed JSON value -- TypeError unless it is an object, KeyError when the key is absent,
+        else the member exactly as `item.get("key")` gives it."""
+        if isinstance(base, VExt) and base.sort == "Json" and isinstance(idx, VStr) and idx.const() is not None:
+            st = self.fork_raise(st, z3.Not(J_ISDICT(base.t)), "TypeError")
+            if st is None:
+                return []
+            st = self.fork_raise(st, z3.Not(J_HAS(base.t, sv(idx.const()))), "KeyError")
+            if st is None:
+                return []
+            return m_json_get(self, st, base, [idx], {}, node)
+        return super().get_index(st, base, idx, node)
+
     def apply_contract(self, st, c, args, kwargs, node):
         if c.target.endswith("::SharePointRestClient._get_json") and len(args) >= 2 and self.inline_depth == 0:
             st.ghost["requested"] = st.ghost.get("requested", ()) + (args[1],)      # which URLs this activation asks the server for
         if c.target.endswith("::SharePointRestClient.list_files_filtered") and len(args) >= 2 and isinstance(args[1], VRef) \
                 and st.obj(args[1].ref).kind == "obj" and st.obj(args[1].ref).cls == "FileFilter":
             return self.delegate_filtered(st, c, args, kwargs, node)
+        if c.target.endswith("::SharePointRestClient.fetch_access_token") and self.inline_depth == 0:
+            st.ghost["token_fetches"] = st.ghost.get("token_fetches", 0) + 1            # round 7: `_ensure_token` fetches only when needed
+        if c.target.endswith("::SharePointRestClient._send") and self.inline_depth == 0:
+            rq = kwargs.get("request", args[1] if len(args) > 1 else None)
+            st.ghost["sent"] = st.ghost.get("sent", ()) + (rq,)                          # round 7: requests handed to the transport wrapper
         self.applying = getattr(self, "applying", 0) + 1
         try:
             return super().apply_contract(st, c, args, kwargs, node)
@@ -1363,7 +1404,23 @@ class C18Executor(Executor):
             return False
         if breaks(s.body) or any(isinstance(k, _ast.Starred) for k in call.args) or any(k.arg is None for k in call.keywords):
             self.unsupported(s, "loop over a generator helper: break in the body / starred arguments")
+        # round 7: a bare `return` directly inside the helper's LAST statement, when that is a loop without `else`, ends the
+        # generator exactly like `break` of that loop (nothing of the helper runs after it); such returns are executed as the
+        # break they stand for.  Not below a nested loop (break would leave the wrong loop) nor try / with (kept out of subset).
+        real = [x for x in fnode.body if not (isinstance(x, _ast.Expr) and isinstance(x.value, _ast.Constant))]
+        as_break = set()
+        if real and isinstance(real[-1], (_ast.While, _ast.For)) and not real[-1].orelse:
+            def tail_returns(stmts):
+                for x in stmts:
+                    if isinstance(x, _ast.Return) and (x.value is None or (isinstance(x.value, _ast.Constant) and x.value.value is None)):
+                        as_break.add((x.lineno, x.col_offset))
+                    elif isinstance(x, _ast.If):
+                        tail_returns(x.body)
+                        tail_returns(x.orelse)
+            tail_returns(real[-1].body)
         for x in _ast.walk(fnode):
+            if isinstance(x, _ast.Return) and (x.lineno, x.col_offset) in as_break:
+                continue
             if x is not fnode and isinstance(x, (_ast.FunctionDef, _ast.AsyncFunctionDef, _ast.Lambda, _ast.ClassDef, _ast.Return, _ast.Global,
                                                  _ast.Nonlocal, _ast.Await)):
                 self.unsupported(s, f"loop over generator helper {fnode.name}: {type(x).__name__} inside the helper")
@@ -1404,6 +1461,9 @@ class C18Executor(Executor):
         class Ren(_ast.NodeTransformer):
             def visit_Name(self, node):
                 return _ast.copy_location(_ast.Name(id=pre + node.id, ctx=node.ctx), node) if node.id in local else node
+
+            def visit_Return(self, node):
+                return _ast.copy_location(_ast.Break(), node) if (node.lineno, node.col_offset) in as_break else node
         outer = self
 
         def rewrite(stmts, guarded):
@@ -1641,7 +1701,10 @@ class C18Executor(Executor):
                 self.unsupported(n, "forking / raising condition in comprehension over a symbolic sequence")
             s2 = rc[0][0]
             keep.append(self.truth(s2, rc[0][1]).t)
+        base = s2.fork()
         res = self.ev(elt, s2)
+        if len(res) > 1 and len(self.sinks[-1]) == mark:
+            res = self.merge_bool_forks(base, res, pclen)       # round 7: a pure case split inside the element is one If-term
         if len(res) != 1 or len(self.sinks[-1]) != mark or len(res[0][0].pc) != pclen:
             self.unsupported(n, "forking / raising element expression in comprehension over a symbolic sequence")
         s3, val = res[0]
@@ -1649,6 +1712,32 @@ class C18Executor(Executor):
         kc = z3.And(keep) if keep else None
         return (s3, seq, (lambda j, val=val, i=i: subst_v(val, i, j)),
                 (lambda j, kc=kc, i=i: z3.BoolVal(True) if kc is None else z3.substitute(kc, (i, j))), val.kind, bool(keep))
+
+    def merge_bool_forks(self, base, res, pclen):
+        """Element expression of a comprehension that forked (e.g. a helper with `if c: return a` / `return b`): when every
+        outcome is a bool, left heap / ghost / yields / frames as they were and only added branch conditions, and those
+        conditions are proved exhaustive under the path condition (so nothing was *assumed* on the way), the element is the
+        single term If(c1, v1, If(c2, v2, ..)).  Anything else: returned unchanged (-> out of subset)."""
+        conds = []
+        for (s_k, v_k) in res:
+            if not isinstance(v_k, VBool) or len(s_k.pc) < pclen or any(a is not b for a, b in zip(s_k.pc[:pclen], base.pc)):
+                return res
+            if len(s_k.frames) != len(base.frames) or len(s_k.yielded) != len(base.yielded):
+                return res
+            if set(s_k.heap) != set(base.heap) or any(s_k.heap[r] is not base.heap[r] for r in base.heap):
+                return res
+            if set(s_k.ghost) != set(base.ghost) or any(not (s_k.ghost[g] is base.ghost[g] or s_k.ghost[g] == base.ghost[g]) for g in base.ghost):
+                return res
+            for fa, fb in zip(s_k.frames, base.frames):
+                if set(fa.env) != set(fb.env) or any(fa.env[x] is not fb.env[x] for x in fb.env):
+                    return res
+            conds.append(z3.And(*s_k.pc[pclen:]) if len(s_k.pc) > pclen else z3.BoolVal(True))
+        if not proves(self, base, z3.Or(conds), timeout_ms=1000):
+            return res
+        term = res[-1][1].t
+        for c_k, (_, v_k) in zip(reversed(conds[:-1]), reversed(res[:-1])):
+            term = z3.If(c_k, v_k.t, term)
+        return [(base, VBool(term))]
 
     def e_GeneratorExp(self, n, st):
         r = self.sym_comp(n, n.elt, st)
@@ -1982,6 +2071,12 @@ def m_new_request(ex, st, args, kwargs, node):
     r = VExt("Request")
     if isinstance(url, VStr):
         st.assume(FULL_URL(r.t) == url.t)
+    h = kwargs.get("headers", args[2] if len(args) > 2 else None)
+    auth = None
+    if isinstance(h, VRef) and st.obj(h.ref).kind == "dict" and st.obj(h.ref).data is not None:
+        auth = st.obj(h.ref).data.get("Authorization")
+    # the Authorization header of the new request object, when it is given as a dict with that key (definition on a fresh object)
+    st.ghost[("auth", r.t.get_id())] = auth if isinstance(auth, VStr) else None
     return [(st, r)]
 
 
@@ -2291,6 +2386,73 @@ def part_b(reg):
         note="token cached only after a successful, well-formed token response; any failure is of the client family",
     ))
 
+    # -- _ensure_token / _get_headers (round 7: own contracts; until now they were executed in place inside every caller) ------
+    def token_is_result(c):
+        t = self_field(c, "_access_token")
+        return z3.And(z3.BoolVal(isinstance(t, VStr) and isinstance(c.result, VStr)), same_value(t, c.result))
+
+    def cached_token_reused(c):
+        """With a token cached at entry no token request is made and the cache keeps it; without one exactly one is made
+        and the cache holds its (non-empty) answer."""
+        old, new = self_field(c, "_access_token", c.entry), self_field(c, "_access_token")
+        n = c.st.ghost.get("token_fetches", 0)
+        if isinstance(old, VStr):
+            return z3.And(z3.BoolVal(n == 0), same_value(old, new))
+        return z3.And(z3.BoolVal(n == 1 and isinstance(new, VStr)), z3.Length(new.t) > 0 if isinstance(new, VStr) else z3.BoolVal(False))
+
+    site_same = ("site-id-untouched", lambda c: same_value(self_field(c, "_site_id"), self_field(c, "_site_id", c.entry)))
+
+    out.append(FnContract(
+        target=f"{CLIENT}::SharePointRestClient._ensure_token",
+        params=[("self", p_client())],
+        ensures=[("returns-the-token-held-in-the-cache-afterwards", body_only(token_is_result)),
+                 ("a-cached-token-is-reused-without-a-request,-an-absent-one-is-fetched-once", body_only(cached_token_reused)),
+                 ("responses-closed", closed), site_same],
+        raises=family_raises(token_unchanged),
+        modifies=("self",), frame=token_frame,
+        result_maker=token_after_success,
+        note="token on demand: the cached one, else one fetch whose answer is cached; a failed fetch leaves the cache empty",
+    ))
+
+    def headers_authorise(c):
+        r, t = c.result, self_field(c, "_access_token")
+        if not (isinstance(r, VRef) and c.st.obj(r.ref).kind == "dict" and c.st.obj(r.ref).data is not None and isinstance(t, VStr)):
+            return z3.BoolVal(False)
+        a = c.st.obj(r.ref).data.get("Authorization")
+        if not isinstance(a, VStr):
+            return z3.BoolVal(False)
+        return a.t == z3.Concat(sv("Bearer "), t.t)
+
+    def headers_result(ex, st, ctx):
+        t = token_after_success(ex, st, ctx)
+        return VRef(st.alloc(HeapObj("dict", {"Authorization": VStr(z3.Concat(sv("Bearer "), t.t)), "Accept": VStr("application/json")}), ex.refs))
+
+    out.append(FnContract(
+        target=f"{CLIENT}::SharePointRestClient._get_headers",
+        params=[("self", p_client())],
+        ensures=[("authorization-is-bearer-+-the-token-held-in-the-cache-afterwards", body_only(headers_authorise)),
+                 ("token-present-afterwards", lambda c: json_token_rule(c)),
+                 ("responses-closed", closed), site_same],
+        raises=family_raises(token_unchanged),
+        modifies=("self",), frame=token_frame,
+        result_maker=headers_result,
+        note="request headers: `Authorization: Bearer <cached token>` (RFC 6750), the token obtained through _ensure_token",
+    ))
+
+    def requests_authorised(c):
+        """Every request this activation hands to `_send` carries `Authorization: Bearer <token in the cache afterwards>`."""
+        t = self_field(c, "_access_token")
+        sent = c.st.ghost.get("sent", ())
+        if not isinstance(t, VStr) or not sent:
+            return z3.BoolVal(False)
+        cs = []
+        for rq in sent:
+            a = c.st.ghost.get(("auth", rq.t.get_id())) if isinstance(rq, VExt) and rq.sort == "Request" else None
+            if a is None:
+                return z3.BoolVal(False)
+            cs.append(a.t == z3.Concat(sv("Bearer "), t.t))
+        return z3.And(cs)
+
     def json_token_rule(c):
         """_access_token afterwards: unchanged if there was one, else a freshly fetched non-empty token."""
         old, new = self_field(c, "_access_token", c.entry), self_field(c, "_access_token")
@@ -2309,7 +2471,8 @@ def part_b(reg):
         params=[("self", p_client()), ("url", p_str())],
         ensures=[("responses-closed", closed), ("token-present-afterwards", json_token_rule),
                  ("site-id-untouched", lambda c: same_value(self_field(c, "_site_id"), self_field(c, "_site_id", c.entry))),
-                 ("result-is-the-parsed-body", body_only(lambda c: z3.BoolVal(isinstance(c.result, VExt) and c.result.sort == "Json")))],
+                 ("result-is-the-parsed-body", body_only(lambda c: z3.BoolVal(isinstance(c.result, VExt) and c.result.sort == "Json"))),
+                 ("the-request-is-authorised-with-the-cached-token", body_only(requests_authorised))],
         raises=family_raises(json_raise_token_rule),
         modifies=("self",), frame=token_frame,
         result_maker=get_json_result,
@@ -2336,10 +2499,25 @@ def part_b(reg):
         st.wobj(ref).data["_site_id"] = sid
         return sid
 
+    def site_lookup_url(c):
+        """Round 7: with a cached site id no request is made; without one the single request addresses the Graph site-by-path
+        resource of the client's site URL: `<v1.0>/sites/{hostname}` followed by `:{server-relative path}` when the path
+        (without trailing slashes) is not empty (format written here from the Graph documentation)."""
+        urls = c.st.ghost.get("requested", ())
+        if isinstance(self_field(c, "_site_id", c.entry), VStr):
+            return z3.BoolVal(len(urls) == 0)
+        su = self_field(c, "_site_url", c.entry)
+        if len(urls) != 1 or not isinstance(urls[0], VStr) or not isinstance(su, VStr):
+            return z3.BoolVal(False)
+        host, path = NETLOC(su.t), RSTRIPS(UPATH(su.t))
+        root = z3.Concat(sv(GRAPH_V1 + "/sites/"), host)
+        return z3.If(z3.Length(path) > 0, urls[0].t == z3.Concat(root, sv(":"), path), urls[0].t == root)
+
     out.append(FnContract(
         target=f"{CLIENT}::SharePointRestClient.get_site_id",
         params=[("self", p_client())],
-        ensures=[("site-id-cached-is-the-one-returned", site_cached), ("responses-closed", closed)],
+        ensures=[("site-id-cached-is-the-one-returned", site_cached), ("responses-closed", closed),
+                 ("a-cached-site-id-needs-no-request;-otherwise-one-request-to-the-site-by-path-resource-(graph-path)", body_only(site_lookup_url))],
         raises=family_raises(),
         modifies=("self",), frame=site_frame,
         result_maker=site_result,
@@ -2545,6 +2723,23 @@ def all_folders_nth(t):
     return z3.ForAll([n], z3.Implies(z3.And(n >= 0, n < z3.Length(t)), is_folder(t[n])), patterns=[t[n]])
 
 
+GRAPH_V1 = "https://graph.microsoft.com/v1.0"        # Graph REST v1.0 root (spec side: from the Graph documentation)
+
+
+def free_consts(t):
+    """Names of the uninterpreted constants (symbolic inputs) a term mentions."""
+    seen, out, todo = set(), set(), [t]
+    while todo:
+        e = todo.pop()
+        if e.get_id() in seen:
+            continue
+        seen.add(e.get_id())
+        if z3.is_const(e) and e.decl().kind() == z3.Z3_OP_UNINTERPRETED:
+            out.add(e.decl().name())
+        todo.extend(e.children())
+    return out
+
+
 def ctx_of(site, drive):
     return CTX0(site.t) if isinstance(drive, VNoneT) else CTXD(site.t, drive.t)
 
@@ -2643,16 +2838,54 @@ def part_c(reg):
     CL = p_client(token=p_unk(), site=p_unk())
     CL_SITE = p_client(token=p_unk())
 
-    # -- _build_children_url: URL construction is opaque (TRUSTED: exercised by the replayer's fake server) -------
+    # -- _build_children_url (round 7: VERIFIED; it was an assumed abstraction) ---------------------------------------
+    # Verified on the body: the URL addresses the children collection of exactly the folder asked for, in the Graph REST
+    # format written here from the Graph documentation (not read from the module), optionally followed by a query string; it is
+    # a function of (site, drive, folder id) alone, total, no effect.  Call-site view (unchanged): the opaque name
+    # CU(ctx(site, drive), id) / CUROOT(ctx) of that function -- implied by the verified clauses (the explicit format is
+    # such a function), so the listing layer keeps reasoning over the abstract library indexed by URL.
     def curl(c):
         ctx = ctx_of(c.args["site_id"], c.args["drive_id"])
         it = c.args["item_id"]
         return VStr(CUROOT(ctx)) if isinstance(it, VNoneT) else VStr(CU(ctx, it.t))
+
+    def bcu_path(c):
+        site, it, drv = c.args["site_id"], c.args["item_id"], c.args["drive_id"]
+        parts = [sv(GRAPH_V1 + "/sites/"), site.t]
+        parts.append(sv("/drive") if isinstance(drv, VNoneT) else z3.Concat(sv("/drives/"), drv.t))
+        parts.append(sv("/root") if isinstance(it, VNoneT) else z3.Concat(sv("/items/"), it.t))
+        parts.append(sv("/children"))
+        return z3.Concat(*parts)
+
+    def bcu_addresses(c):
+        r = c.result
+        if not isinstance(r, VStr):
+            return z3.BoolVal(False)
+        path = bcu_path(c)
+        n = z3.Length(path)
+        return z3.And(z3.PrefixOf(path, r.t), z3.Or(z3.Length(r.t) == n, z3.SubString(r.t, n, 1) == sv("?")))
+
+    def bcu_functional(c):
+        r = c.result
+        if not isinstance(r, VStr):
+            return z3.BoolVal(False)
+        allowed = set()
+        for a in ("site_id", "item_id", "drive_id"):
+            v = c.args[a]
+            if isinstance(v, VStr):
+                allowed |= free_consts(v.t)
+        return z3.BoolVal(free_consts(r.t) <= allowed)
+
     out.append(FnContract(
         target=f"{CLIENT}::SharePointRestClient._build_children_url",
         params=[("self", CL), ("site_id", p_str()), ("item_id", p_opt(p_str())), ("drive_id", P_DRIVE)],
-        returns=curl, assumed=True,
-        note="ASSUMED abstraction: the children URL is a function of (site, drive, folder id); its Graph format is not proved",
+        ensures=[("addresses-the-children-collection-of-the-folder-asked-for-(graph-path,-optional-query)", body_only(bcu_addresses)),
+                 ("the-url-is-a-function-of-site,-drive-and-folder-id-alone", body_only(bcu_functional)),
+                 ("client-state-untouched", body_only(caches_unchanged))],
+        raises=[], total=True,
+        result_maker=lambda ex, st, ctx: curl(ctx),
+        note="children URL of a folder: Graph path of (site, drive, folder id) + optional query; callers see the opaque name CU / CUROOT "
+             "of this verified function",
     ))
 
     # -- _parse_file_item ---------------------------------------------------------------------------------------
@@ -2846,11 +3079,27 @@ def part_c(reg):
             raise ops.Unsupported("the lookup URL does not end with the percent-encoded path")
         return UNQUOTE(last) == STRIPS(c.args["folder_path"].t)
 
+    def gfp_resource(c):
+        """Round 7: what precedes the encoded path is the Graph item-by-path address of the root of exactly the drive asked
+        for -- `<v1.0>/sites/{site}/drive/root:/` or `<v1.0>/sites/{site}/drives/{drive}/root:/` (format written here from the
+        Graph documentation).  With the clause above the lookup URL is fully determined: nothing of its format is trusted."""
+        urls = c.st.ghost.get("requested", ())
+        if len(urls) != 1 or not isinstance(urls[0], VStr):
+            raise ops.Unsupported("folder lookup does not make exactly one JSON request with a string URL")
+        parts = str_parts(urls[0].t)
+        if len(parts) < 2:
+            return z3.BoolVal(False)
+        drv = c.args["drive_id"]
+        want = z3.Concat(sv(GRAPH_V1 + "/sites/"), c.args["site_id"].t,
+                         sv("/drive") if isinstance(drv, VNoneT) else z3.Concat(sv("/drives/"), drv.t), sv("/root:/"))
+        return mk_concat(parts[:-1]) == want
+
     out.append(FnContract(
         target=f"{CLIENT}::SharePointRestClient._get_folder_by_path",
         params=[("self", CL), ("site_id", p_str()), ("folder_path", p_str()), ("drive_id", P_DRIVE)],
         returns=gfp_returns, ensures=[("returns-None-or-a-folder-item", gfp_shape), ("responses-closed", closed),
-                                      ("the-request-addresses-the-requested-path-(percent-decoding-gives-it-back)", body_only(gfp_addresses))],
+                                      ("the-request-addresses-the-requested-path-(percent-decoding-gives-it-back)", body_only(gfp_addresses)),
+                                      ("the-request-addresses-the-item-by-path-resource-of-the-drive-asked-for-(graph-path)", body_only(gfp_resource))],
         raises=listing_raises(),
         modifies=("self",), frame=token_frame,
         note="body verified for shape and failure surface (404 -> None, everything else: client family, responses closed); "
@@ -3078,11 +3327,44 @@ def part_e(reg):
     )]
 
 
+def part_f(reg):
+    """Round 7: the constructor of the client -- the initial state the cache typestate (Part D) and every `p_client` start from."""
+    def field_of(c, name):
+        o = c.st.obj(c.args["self"].ref)
+        return o.data.get(name) if o.kind == "obj" and o.data is not None else None
+
+    def caches_empty(c):
+        return z3.BoolVal(all(isinstance(field_of(c, f), VNoneT) for f in ("_access_token", "_site_id")))
+
+    def transport_kept(c):
+        given, got = c.args["request_func"], field_of(c, "_request")
+        if isinstance(given, VExt) and given.sort == "Transport":
+            return z3.BoolVal(isinstance(got, VExt) and got.sort == "Transport" and got.t.eq(given.t))
+        # none given: the standard library's urlopen, not a transport value of ours
+        return z3.BoolVal(got is not None and not isinstance(got, (VNoneT, VExt)))
+
+    def creds_kept(c):
+        got = field_of(c, "_credentials")
+        return z3.BoolVal(isinstance(got, VRef) and got.ref == c.args["credentials"].ref)
+
+    return [FnContract(
+        target=f"{CLIENT}::SharePointRestClient.__init__",
+        params=[("self", p_obj("SharePointRestClient", {})), ("site_url", p_str()), ("credentials", CREDS),
+                ("request_func", with_default(p_opt(p_transport()), NONE)), ("timeout", with_default(p_unk(), VUnk("timeout")))],
+        ensures=[("both-caches-start-empty", caches_empty),
+                 ("the-transport-is-the-one-given-(urlopen-when-none-is)", transport_kept),
+                 ("the-credentials-are-the-ones-given", creds_kept)],
+        raises=[], total=True, modifies=("self",),
+        note="a new client holds no token and no site id (so its first listing authenticates and resolves the site), talks through "
+             "the transport it was given and authenticates with the credentials it was given",
+    )]
+
+
 def contracts(reg):
     install_string_models(reg)
     install_transport_models(reg)
     install_listing_models(reg)
-    return part_a(reg) + part_b(reg) + part_c(reg) + part_e(reg)
+    return part_a(reg) + part_b(reg) + part_c(reg) + part_e(reg) + part_f(reg)
 
 
 # ================================================================== Part D ==
@@ -3259,8 +3541,8 @@ def known_findings(kf, violations, repo, tier):
 
 
 def native_listing_suite(repo, tier):
-    """BOUNDED stand-in for the parts that are only assumed symbolically (URL formats of _build_children_url and of the folder
-    lookup, the server's routing, lazy generator interleavings): the replayer's suite -- random and crafted fake Graph libraries,
+    """BOUNDED stand-in for the parts that are only assumed symbolically (URL format of the folder lookup, the server's routing,
+    lazy generator interleavings; the children URL is verified since round 7 and merely cross-checked here): the replayer's suite -- random and crafted fake Graph libraries,
     every filter kind, fault injection at every request index -- run natively against the real code on every check."""
     import json
     import os
@@ -3286,6 +3568,7 @@ def native_listing_suite(repo, tier):
         o = ground_obligation(oid, False, str(res.get("note", "no answer from the replayer"))[:300], "client.py", kind="bounded", backend="native",
                               definite=False)
     o["bounded"] = True
+    o["bound"] = "fake Graph libraries: depth <= 3, <= 6 items per folder, page sizes 1..4, one injected fault per run (see BOUNDED)"
     return {"obligations": [o], "functions": []}
 
 
@@ -3300,8 +3583,10 @@ TRUSTED = [
     "GRAPH-SHAPE: a body that parses as JSON is a JSON object; `value` is an array; name / id / @odata.nextLink / access_token are "
     "strings when present; a folder item found by path has a non-empty id (natively: `[]`, `null`, {\"value\": null} give "
     "AttributeError / TypeError outside the client family -- outside the statement's fault kinds, reported)",
-    "URL formats (_build_children_url, folder lookup by path) are opaque functions of (site, drive, id / path): their Graph syntax is "
-    "exercised only by the replayer's fake server",
+    "URL format of the folder lookup by path: an opaque function of (site, drive, path) whose percent-decoding gives the path back "
+    "(round 4 clause); the Graph syntax around it is exercised only by the replayer's fake server.  (The children URL is no longer "
+    "trusted: `_build_children_url` is verified against the Graph path format since round 7; the listing layer uses the opaque "
+    "name CU / CUROOT of that verified function.)",
     "PY-GEN: a generator under contract is used by its caller through the sequence it yields (eager view); interleavings are covered "
     "natively by the fault-injection replay",
 ]
@@ -3315,8 +3600,8 @@ ASSUMED_MODELS = [
     "json.loads / json.dumps, bytes.decode, str.encode, str.lower (uninterpreted), fnmatch.fnmatch (uninterpreted), urllib.parse "
     "urlparse / quote / urlencode (uninterpreted, total), urllib.request.Request (full_url = url given; assumed not to raise), "
     "datetime.fromisoformat (ValueError iff not accepted)",
-    "SharePointRestClient._build_children_url (assumed abstraction), FileFilter.matches / get_target_folders at the listing level "
-    "(abstract MATCHES / target list; matches has its own contract in Part A)",
+    "urllib.request.Request(url, headers=..): the Authorization header of the new object is the dict entry given (definition on a "
+    "fresh object, like full_url)",
 ]
 ASSUMPTIONS = [
     "PY-STR, PY-INT, PY-EXC, PY-ORDER, PY-REC (partial correctness of the recursive walk), PY-LOG (logger calls dropped)",
@@ -3327,6 +3612,8 @@ ASSUMPTIONS = [
     "structural string steps (find / split / slice / endswith on concatenations) are each justified by a solver query on the path "
     "condition; lemma chains take-all.*, take-snoc.*, members-by-index.* are composed by transitivity outside the solver",
     "recursive spec functions WALK / WF are meaningful on finite acyclic libraries only (TREE-FINITE)",
+    "modular call-site views of verified contracts (no assumption): the listing layer sees FileFilter.matches / get_target_folders as the "
+    "abstract MATCHES / target list (contracts in Part A) and the children URL as the opaque CU / CUROOT of its verified Graph-path contract",
 ]
 BOUNDED = [
     {"what": "native replay (replay/C18.py): random libraries of depth <= 3, <= 6 items per folder, page sizes 1..4, 10 fault kinds at "
@@ -3334,7 +3621,11 @@ BOUNDED = [
      "role": "witness search and validation of the assumed models; since round 4 also the BOUNDED obligation `native-listing-suite` "
              "(12 fault kinds incl. empty bodies, folder timestamps, percent-escape folder names; round 6: paging links with query "
              "strings, read() failing after the response was handed out, 15 crafted path-pattern sets, request-error fields), "
-             "counted as bounded-ok, never as discharged"},
+             "counted as bounded-ok, never as discharged",
+     "bound": "libraries of depth <= 3 with <= 6 items per folder, page sizes 1..4, one fault per run; covers what stays assumed "
+              "symbolically (server routing, T-DET, lazy generator interleavings).  Round 7: the URL formats it used to stand in "
+              "for (_build_children_url, folder lookup, site lookup) and the Authorization header are now discharged deductive "
+              "obligations; the suite only cross-checks them"},
 ]
 
 # path pruning only: an undecided feasibility query keeps the path (sound); short budgets keep generation fast on
@@ -3353,7 +3644,7 @@ MANIFEST_ENTRY = dict(
          "walk yield exactly the files of an abstract page chain / folder tree in order (loop invariants, modular recursion); "
          "caches are written only after a successful checked response; only the client's exception family escapes.",
     note="Assumed: ISO-8601 semantics + fromisoformat exact on six-digit fractions, deterministic finite acyclic server (T-DET/T-FIN/"
-         "TREE-FINITE), GRAPH-SHAPE, transport raises only HTTPError/URLError (others escape unchanged, responses closed), URL formats "
-         "opaque, eager generator view; pyvc engine, z3.",
+         "TREE-FINITE), GRAPH-SHAPE, transport raises only HTTPError/URLError (others escape unchanged, responses closed), URL format of "
+         "the folder lookup by path opaque (the children URL is verified), eager generator view; pyvc engine, z3.",
     technique="contract-based deductive verification: AST->VC generation over the real source, string/sequence/recfun VCs in z3",
     design="DESIGN.md §3 C18")
